@@ -1,6 +1,7 @@
 package checks
 
 import (
+	"encoding/binary"
 	"bytes"
 	"fmt"
 	"github.com/syndtr/goleveldb/leveldb/filter"
@@ -410,11 +411,33 @@ type namedBloom struct {
 
 func (n namedBloom) Name() string { return n.name }
 
+// lenPolicy is a valid policy whose filters have nothing in common with bloom filters: eight bytes, bit (len(key) mod 64)
+// set for every key added.  A reader that applies ANOTHER policy to such a block (or this one to a bloom block) gets
+// "absent" for stored keys — which is what must never happen when a table's policy is not among Filter / AltFilters:
+// such a table is read without a filter.
+type lenPolicy struct{}
+type lenGen struct{ bits uint64 }
+
+func (lenPolicy) Name() string                         { return "verif.policyLen" }
+func (lenPolicy) NewGenerator() filter.FilterGenerator { return &lenGen{} }
+func (lenPolicy) Contains(f, key []byte) bool {
+	if len(f) != 8 {
+		return true
+	}
+	return binary.LittleEndian.Uint64(f)&(1<<(uint(len(key))%64)) != 0
+}
+func (g *lenGen) Add(key []byte) { g.bits |= 1 << (uint(len(key)) % 64) }
+func (g *lenGen) Generate(b filter.Buffer) {
+	binary.LittleEndian.PutUint64(b.Alloc(8), g.bits)
+	g.bits = 0
+}
+
 var migrationPolicies = []filter.Filter{
 	namedBloom{filter.NewBloomFilter(10), "verif.policyA"},
 	namedBloom{filter.NewBloomFilter(6), "verif.policyB"},
 	nil, // no filter for new tables; the old ones keep theirs through AltFilters
 	namedBloom{filter.NewBloomFilter(14), "verif.policyC"},
+	lenPolicy{},
 }
 
 func (r *Runner) open() error {
@@ -422,8 +445,14 @@ func (r *Runner) open() error {
 		o := *r.O
 		o.Filter = migrationPolicies[r.opens%len(migrationPolicies)]
 		o.AltFilters = nil
-		for _, f := range migrationPolicies {
-			if f != nil && f != o.Filter {
+		// every third open "forgets" one of the other policies: the tables written under it are then read without a
+		// filter (their policy name matches neither Filter nor any of AltFilters) and every answer stays the same
+		forget := -1
+		if r.opens%3 == 2 {
+			forget = (r.opens / 3) % len(migrationPolicies)
+		}
+		for i, f := range migrationPolicies {
+			if f != nil && f != o.Filter && i != forget {
 				o.AltFilters = append(o.AltFilters, f)
 			}
 		}
